@@ -272,14 +272,14 @@ func newDHCPServer(withRadius bool) (*dhcp.Server, *radiusFake, error) {
 func dhcpEntry() *entry {
 	return &entry{
 		name: "dhcp.Server.handleDHCP", states: []string{"local-pool", "radius-auth"}, chunk: 1500, cost: 20, scale: true,
-		quick: 20000, thorough: 200000,
+		quick: 20000, thorough: 100000,
 		quota: func(state string, thorough bool) int {
 			n := 16000
 			if state == "radius-auth" { // every new session costs a RADIUS exchange over loopback
 				n = 4000
 			}
 			if thorough {
-				n *= 10
+				n *= 5
 			}
 			return n
 		},
@@ -344,7 +344,7 @@ func dhcpEntry() *entry {
 
 func option82Entry() *entry {
 	return &entry{
-		name: "dhcp.parseOption82", states: []string{"wire-packet", "raw-option-82"}, quick: 20000, thorough: 200000, chunk: 5000, cost: 2, scale: true,
+		name: "dhcp.parseOption82", states: []string{"wire-packet", "raw-option-82"}, quick: 20000, thorough: 100000, chunk: 5000, cost: 2, scale: true,
 		open: func(state string, ev *env) (runner, error) {
 			r := &fnRunner{}
 			if state == "wire-packet" {
@@ -450,7 +450,7 @@ func dhcpv6ParserEntries() []*entry {
 
 func dhcpv6Entry() *entry {
 	return &entry{
-		name: "dhcpv6.Server.handleMessage", quick: 20000, thorough: 200000, chunk: 1000, cost: 15, scale: true,
+		name: "dhcpv6.Server.handleMessage", quick: 20000, thorough: 100000, chunk: 1000, cost: 15, scale: true,
 		open: func(state string, ev *env) (runner, error) {
 			srv, err := dhcpv6.NewServer(dhcpv6.ServerConfig{Interface: "lo", AddressPool: "2001:db8:1::/64", PrefixPool: "2001:db8:100::/40", DelegationLength: 56, DNSServers: []string{"2001:db8::53"}}, zap.NewNop())
 			if err != nil {
@@ -726,14 +726,14 @@ func (l *coaLoop) ScaleInput(n int) []byte {
 
 func coaEntry() *entry {
 	return &entry{
-		name: "radius.CoAServer.receiveLoop", quick: 20000, thorough: 200000, chunk: 1000, cost: 40, scale: true,
+		name: "radius.CoAServer.receiveLoop", quick: 20000, thorough: 100000, chunk: 1000, cost: 40, scale: true,
 		open: func(state string, ev *env) (runner, error) { return openCoALoop(ev) },
 	}
 }
 
 func radiusClientEntry() *entry {
 	return &entry{
-		name: "radius.Client.Authenticate", states: []string{"access", "accounting"}, quick: 4000, thorough: 40000, chunk: 400, cost: 400,
+		name: "radius.Client.Authenticate", states: []string{"access", "accounting"}, quick: 4000, thorough: 20000, chunk: 400, cost: 400,
 		open: func(state string, ev *env) (runner, error) {
 			rf, err := newRadiusFake("verif-secret")
 			if err != nil {
@@ -829,7 +829,7 @@ func haScale(n int) []byte {
 
 func haEntry() *entry {
 	return &entry{
-		name: "ha.HASyncer.handleSSEData", quick: 20000, thorough: 200000, chunk: 5000, cost: 8, scale: true,
+		name: "ha.HASyncer.handleSSEData", quick: 20000, thorough: 100000, chunk: 5000, cost: 8, scale: true,
 		open: func(state string, ev *env) (runner, error) {
 			cfg := ha.DefaultSyncConfig()
 			cfg.NodeID, cfg.Role, cfg.Partner = "bng-b", ha.RoleStandby, &ha.PartnerInfo{NodeID: "bng-a", Endpoint: "127.0.0.1:1"}
@@ -862,7 +862,7 @@ func algEntry() *entry {
 		return []byte("INVITE sip:bob@example.com SIP/2.0\r\nVia: SIP/2.0/UDP " + ip + ":5060;branch=z9hG4bK776\r\nContact: <sip:alice@" + ip + ":5060>\r\nContent-Type: application/sdp\r\n\r\nv=0\r\no=- 1 1 IN IP4 " + ip + "\r\nc=IN IP4 " + ip + "\r\nm=audio 49170 RTP/AVP 0\r\n")
 	}
 	return &entry{
-		name: "nat.ALGHandler.ProcessPacket", states: []string{"ftp-outbound", "ftp-inbound", "sip-outbound", "sip-inbound"}, quick: 32000, thorough: 320000, chunk: 8000, cost: 6, scale: true,
+		name: "nat.ALGHandler.ProcessPacket", states: []string{"ftp-outbound", "ftp-inbound", "sip-outbound", "sip-inbound"}, quick: 32000, thorough: 160000, chunk: 8000, cost: 6, scale: true,
 		open: func(state string, ev *env) (runner, error) {
 			lg := zap.NewNop()
 			nm, err := nat.NewManager(nat.ManagerConfig{Interface: "lo", EnableFTPALG: true, EnableSIPALG: true}, lg)
@@ -910,7 +910,7 @@ func algEntry() *entry {
 
 func ztpEntry() *entry {
 	return &entry{
-		name: "ztp.extractNexusURL", states: []string{"wire-ack", "raw-option-43", "raw-option-224"}, quick: 20000, thorough: 200000, chunk: 5000, cost: 2,
+		name: "ztp.extractNexusURL", states: []string{"wire-ack", "raw-option-43", "raw-option-224"}, quick: 20000, thorough: 100000, chunk: 5000, cost: 2,
 		open: func(state string, ev *env) (runner, error) {
 			v43 := append([]byte{1, 22}, []byte("https://nexus.example/")...)
 			ack := func(mods ...dhcpv4.Modifier) []byte {
